@@ -208,6 +208,7 @@ def leg_save_identity(chk, tier):
             chk.fail("MsgPack save: memory, stream and file (SaveObjectToFile) output differ", {"scenario": rows[o["run"]], "observed": o})
     chk.add_cases(len(rows), distinct_keys=(("save", json.dumps(x["root"])) for x in rows), validated=len(rows))
     jc.save_leg(chk, tier, label="json-save-identity")
+    jc.save_leg(chk, tier, label="xml-save-identity", arch="xml")
 
 
 def run_check(tier):
